@@ -6,6 +6,9 @@ ALL = ["C%02d" % i for i in range(1, 21)]
 
 # id -> (level, technique, level text, level note, design ref)
 CHECKS = {
+ "C01": ("exploration", "deviation-bounded exhaustive exploration of network delivery orders, checkpoint-tick positions and worker-kill points in a cluster simulation of the real Job, Operators and SourceRunners (components run the default schedule under the cooperative scheduler); exactly-once oracle inside the handler and on the state read back from the DKV checkpoints",
+         "scenarios of 1-2 splits / 5-10 records over colliding keys, 1-2 workers, read size, batch size, tick positions and acknowledgement order enumerated; every run with at most one deviation (thorough: two) among: a queued RPC delivered out of order, one worker killed at any network event, all workers killed at once; after a kill fresh workers register and the job redeploys from its latest completed checkpoint; no record applied twice, none lost, final state = failure-free fold",
+         "interleavings inside components are not re-explored here; a known finding (a surviving worker that is redeployed) masks the runs in which one of two workers survives", "DESIGN.md §5 C01"),
  "C02": ("exploration", "delay-bounded exhaustive schedule exploration of a real Operator under a cooperative scheduler (testing/synctest bubble), scripts enumerated, cut oracle evaluated at every OperatorCheckpointComplete",
          "two (thorough: also three) sender threads playing enumerated scripts of events / watermarks / barriers for one or two consecutive checkpoints against a real Operator with a slow handler; every schedule within 1 delay for all scripts and 2 delays for a focused script set (thorough: 2 and 3): the events applied at the report of checkpoint N are exactly the pre-barrier events, no timer fires on post-barrier watermarks only, the reported DKV checkpoint restores to exactly the cut, no deadlock",
          "scheduling points at synchronisation operations; delay bound; large memtable (no background flush in this harness)", "DESIGN.md §5 C02"),
